@@ -283,7 +283,7 @@ impl<'a, 'b> G<'a, 'b> {
         let kind = self.t.below(6);
         let np = self.t.below(3);
         let mut params: Vec<(String, T, Option<Box<E>>)> = vec![];
-        let n_opt = if np > 0 && self.t.below(3) == 0 { 1 } else { 0 };
+        let n_opt = if np > 0 { [0, 0, 1, 2][self.t.below(4)].min(np) } else { 0 };
         for i in 0..np {
             let pn = if self.t.below(4) == 0 && !sc.vars.is_empty() {
                 // a parameter that shadows an outer variable
